@@ -13,7 +13,7 @@ use std::sync::{Arc, Mutex};
 #[derive(Clone, Debug)]
 pub enum SdOp { Write(u64, Vec<u8>), Resize(u64), Flush }
 
-static OPS: Mutex<Vec<(SdOp, u64)>> = Mutex::new(vec![]); // (op, file length before it)
+pub static OPS: Mutex<Vec<(SdOp, u64)>> = Mutex::new(vec![]); // (op, file length before it)
 
 pub struct Rec<D: StorageData>(D);
 
@@ -42,7 +42,7 @@ impl<D: StorageData> StorageData for Rec<D> {
 #[derive(Clone)]
 pub struct Snap { pub data: Vec<u8>, pub wal: Vec<u8>, pub call: usize, pub torn: usize, pub ops_seen: usize, pub committed: Vec<u8> }
 
-pub struct HookState { pub path: String, pub wal_path: String, pub calls: Vec<String>, pub snaps: Vec<Snap>, pub committed: Vec<u8>, pub torn_seed: u64 }
+pub struct HookState { pub path: String, pub wal_path: String, pub calls: Vec<String>, pub snaps: Vec<Snap>, pub committed: Vec<u8>, pub torn_seed: u64, pub sample_permille: u64 }
 
 pub fn wal_name(path: &str) -> String {
     match path.rfind('/') { Some(i) => format!("{}/.{}", &path[..i], &path[i + 1..]), None => format!(".{}", path) }
@@ -60,13 +60,19 @@ fn show_call(e: &FsEvent) -> Option<String> {
     }
 }
 
-pub fn install_hook(path: &str, torn_seed: u64) -> Arc<Mutex<HookState>> {
+pub fn install_hook(path: &str, torn_seed: u64, sample_permille: u64) -> Arc<Mutex<HookState>> {
     let wal_path = wal_name(path);
-    let hs = Arc::new(Mutex::new(HookState { path: path.to_string(), wal_path: wal_path.clone(), calls: vec![], snaps: vec![], committed: vec![], torn_seed }));
+    let hs = Arc::new(Mutex::new(HookState { path: path.to_string(), wal_path: wal_path.clone(), calls: vec![], snaps: vec![], committed: vec![], torn_seed, sample_permille }));
     let h2 = hs.clone();
     set_fs_hook(Some(Box::new(move |e: &FsEvent| {
         let Some(call) = show_call(e) else { return; };
         let mut s = h2.lock().unwrap();
+        // sampling (crash runs on large histories): a skipped call is still recorded in `calls`
+        if s.sample_permille < 1000 && !matches!(e, FsEvent::WalSetLen(0)) {
+            let k = s.calls.len() as u64;
+            let mut sr = Rng::new(s.torn_seed ^ k.wrapping_mul(0xD1B54A32D192ED03));
+            if sr.below(1000) >= s.sample_permille { s.calls.push(call); return; }
+        }
         let data = read_file(&s.path);
         let wal = read_file(&s.wal_path);
         let k = s.calls.len();
@@ -125,7 +131,7 @@ pub fn run_program(rng: &mut Rng, dir: &str, idx: usize, mapped: bool, max_ops: 
     let _ = std::fs::remove_file(&path);
     let _ = std::fs::remove_file(&wal_path);
     OPS.lock().unwrap().clear();
-    let hs = install_hook(&path, rng.next());
+    let hs = install_hook(&path, rng.next(), 1000);
     let mut program: Vec<String> = vec![];
     let result = std::panic::catch_unwind(std::panic::AssertUnwindSafe(|| -> Result<(), DbError> {
         let mut live: Vec<(u64, u64)> = vec![]; // (index, size)
